@@ -366,9 +366,30 @@ def eventversion_RoomVersionImpl_RedactEventJSON : List String := [
   "return v.redactionAlgorithm(eventJSON)"
 ]
 
+def redactevent__exactFieldsOnly : List String := [
+  "func func(eventJSON []byte, keepStruct interface{}) ([]byte, error)",
+  "var members map[string]json.RawMessage",
+  "if err := json.Unmarshal(eventJSON, &members); err != nil {",
+  "return nil, err",
+  "}",
+  "fields := reflect.TypeOf(keepStruct).Elem()",
+  "exact := make(map[string]json.RawMessage, fields.NumField())",
+  "for i := 0; i < fields.NumField(); i++ {",
+  "name, _, _ := strings.Cut(fields.Field(i).Tag.Get(\"json\"), \",\")",
+  "if value, ok := members[name]; ok {",
+  "exact[name] = value",
+  "}",
+  "}",
+  "return json.Marshal(exact)"
+]
+
 def redactevent__redactEventJSON : List String := [
   "func func[T unredactableEvent](eventJSON []byte, unredactableEvent T, eventTypeToKeepContentFields map[string][]string) ([]byte, error)",
-  "if err := json.Unmarshal(eventJSON, unredactableEvent); err != nil {",
+  "eventJSON, err := exactFieldsOnly(eventJSON, unredactableEvent)",
+  "if err != nil {",
+  "return nil, err",
+  "}",
+  "if err = json.Unmarshal(eventJSON, unredactableEvent); err != nil {",
   "return nil, err",
   "}",
   "newContent := map[string]interface{}{}",
@@ -442,6 +463,6 @@ def redactevent_unredactableEventFieldsV2_SetContent : List String := [
   "u.Content = content"
 ]
 
-def functions : List String := ["eventV1.go:eventV1.Redact", "eventV2.go:eventV2.Redact", "eventcrypto.go:.VerifyAllEventSignatures", "eventcrypto.go:.VerifyEventSignatures", "eventcrypto.go:.addContentHashesToEvent", "eventcrypto.go:.checkEventContentHash", "eventcrypto.go:.emptyAuthorisedViaServerName", "eventcrypto.go:.extractAuthorisedViaServerName", "eventcrypto.go:.getMXIDMapping", "eventcrypto.go:.referenceOfEvent", "eventcrypto.go:.referenceOfEventForVersion", "eventcrypto.go:.signEvent", "eventcrypto.go:.validateMXIDMappingSignatures", "eventversion.go:RoomVersionImpl.RedactEventJSON", "redactevent.go:.redactEventJSON", "redactevent.go:.redactEventJSONV1", "redactevent.go:.redactEventJSONV2", "redactevent.go:.redactEventJSONV3", "redactevent.go:.redactEventJSONV4", "redactevent.go:.redactEventJSONV5", "redactevent.go:unredactableEventFieldsV1.GetContent", "redactevent.go:unredactableEventFieldsV1.GetType", "redactevent.go:unredactableEventFieldsV1.SetContent", "redactevent.go:unredactableEventFieldsV2.GetContent", "redactevent.go:unredactableEventFieldsV2.GetType", "redactevent.go:unredactableEventFieldsV2.SetContent"]
+def functions : List String := ["eventV1.go:eventV1.Redact", "eventV2.go:eventV2.Redact", "eventcrypto.go:.VerifyAllEventSignatures", "eventcrypto.go:.VerifyEventSignatures", "eventcrypto.go:.addContentHashesToEvent", "eventcrypto.go:.checkEventContentHash", "eventcrypto.go:.emptyAuthorisedViaServerName", "eventcrypto.go:.extractAuthorisedViaServerName", "eventcrypto.go:.getMXIDMapping", "eventcrypto.go:.referenceOfEvent", "eventcrypto.go:.referenceOfEventForVersion", "eventcrypto.go:.signEvent", "eventcrypto.go:.validateMXIDMappingSignatures", "eventversion.go:RoomVersionImpl.RedactEventJSON", "redactevent.go:.exactFieldsOnly", "redactevent.go:.redactEventJSON", "redactevent.go:.redactEventJSONV1", "redactevent.go:.redactEventJSONV2", "redactevent.go:.redactEventJSONV3", "redactevent.go:.redactEventJSONV4", "redactevent.go:.redactEventJSONV5", "redactevent.go:unredactableEventFieldsV1.GetContent", "redactevent.go:unredactableEventFieldsV1.GetType", "redactevent.go:unredactableEventFieldsV1.SetContent", "redactevent.go:unredactableEventFieldsV2.GetContent", "redactevent.go:unredactableEventFieldsV2.GetType", "redactevent.go:unredactableEventFieldsV2.SetContent"]
 
 end VPins.C05
